@@ -200,6 +200,24 @@ def run(tier, seed):
             if len(samples) < 2:
                 samples.append({"flags": fl, "events": raw["events"][:8], "summary": sm})
             shutil.rmtree(base, ignore_errors=True)
+        # (0881aca) many new directories with a new directory inside, several workers: the task of an inner entry may make the outer
+        # directory on its way -- every path that was not there before the run is reported created, exactly once, never updated
+        for nd in range(1 if tier == "quick" else 4):
+            base = os.path.join(sc.dir, "nestnew%d" % nd)
+            os.makedirs(base + "/dst")
+            for q in range(150):
+                os.makedirs(base + "/src/d%03d/inner/deep" % q)
+                open(base + "/src/d%03d/inner/deep/f" % q, "w").write("x")
+            for rep_ in range(3):                       # the interleaving varies from run to run (-j64: seen in 3 of 3 runs when it can happen)
+                shutil.rmtree(base + "/dst", ignore_errors=True); os.makedirs(base + "/dst")
+                rr_ = world.run_sy([base + "/src", base + "/dst", "--json", "-j64"], sc)
+                evs_ = [json.loads(l) for l in rr_["out"].split("\n") if l.startswith("{")]
+                ups_ = [e["path"] for e in evs_ if e.get("type") == "update"]
+                ncre_ = sum(1 for e in evs_ if e.get("type") == "create")
+                if ups_ or ncre_ != 150 * 4:
+                    viol.append({"world": "nested-new-directories-%d" % nd, "why": "600 new paths (150 x directory/inner/deep/f) into an empty destination with -j64: %d create events, update events for %r" % (ncre_, ups_[:4])})
+                    break
+            shutil.rmtree(base, ignore_errors=True)
         # (the other direction, 2nd fix of round 4) a symbolic link in the destination where the source has a regular file or a directory
         # now: the path was there before the run -- the replacement is an update, never a creation; dry run and real run agree
         for kc, (skind, dtarget) in enumerate([("file", "nowhere"), ("file", "other.txt"), ("dir", "realdir"), ("dir", "nowhere")]):
